@@ -1,16 +1,27 @@
 ------------------------------- MODULE MIRRun -------------------------------
-(* Executes ONE given program on the abstract machine: the case (a Case record as emitted by MIRProg.tla, possibly edited)  *)
-(* is read from the file named by the environment variable MIRRUN_CASE.  Used to re-decide a program after it was changed   *)
-(* (program reduction keeps only candidates the specification still calls defined), never to produce verdicts.               *)
+(* Executes GIVEN programs on the abstract machine: the cases (Case records as emitted by MIRProg.tla, possibly edited,   *)
+(* or program records of a parametric family written by a harness) are the lines of the file named by the environment      *)
+(* variable MIRRUN_CASE; every line is one initial state.  Used (1) to re-decide a program after it was changed: program   *)
+(* reduction keeps only candidates the specification still calls defined (tools/reduce2.py, never a verdict), and (2) to     *)
+(* give the expected observations of parametric program families (py/c01.py sweep pass): the harness writes the SYNTAX of    *)
+(* the programs, every expected value still comes from MIRSem.                                                              *)
 EXTENDS MIRProg
 
-CaseIn == ndJsonDeserialize(IOEnv.MIRRUN_CASE)[1]
-(* buf0 arrives as cell records (the caller turns byte numbers into [k |-> "b", v |-> n]) *)
+CasesIn == ndJsonDeserialize(IOEnv.MIRRUN_CASE)
+(* buf0 arrives as cell records (the caller turns byte numbers into [k |-> "b", v |-> n]); tag identifies the case *)
 RInit ==
-  /\ phase = "run" /\ slot = 0 /\ cur = NoCur /\ body = <<>> /\ slotpc = <<>> /\ inputs = CaseIn.inputs /\ haveA = FALSE
-  /\ prog = CaseIn.prog
-  /\ mem = InitMem([i \in 1..BufSize |-> CaseIn.buf0[i]], CaseIn.prog.funcs[1].lrefs)
-  /\ frames = InitFrames
-  /\ log = <<>> /\ status = "run" /\ why = "" /\ result = <<>> /\ steps = 0
+  \E n \in 1..Len(CasesIn) :
+    LET C == CasesIn[n] IN
+    /\ phase = "run" /\ slot = n /\ cur = NoCur /\ body = <<>> /\ slotpc = <<>> /\ inputs = C.inputs /\ haveA = FALSE
+    /\ prog = C.prog
+    /\ mem = InitMem([i \in 1..BufSize |-> C.buf0[i]], C.prog.funcs[1].lrefs)
+    /\ frames = <<[f |-> 1, id |-> 0, va |-> <<>>, pc |-> 1,
+                   regs |-> [r \in 1..Len(C.prog.funcs[1].regty) |-> IF r = 1 THEN PtrV(1, 0) ELSE UndefV], base |-> 6, ovf |-> NoOvf]>>
+    /\ log = <<>> /\ status = "run" /\ why = "" /\ result = <<>> /\ steps = 0
 RNext == Run \/ Finish
+(* the case number travels in `slot` (unused while running) *)
+RCase == [n |-> slot, status |-> (IF status = "done" /\ ~Observable THEN "undef" ELSE status),
+          why |-> (IF status = "done" /\ ~Observable THEN "address-dependent observation" ELSE why),
+          result |-> result, buf |-> [i \in 1..BufSize |-> CellOut(mem[1].cells[i])], log |-> log, steps |-> steps]
+REmit == (phase' = "end") => EmitJ(RCase)
 =============================================================================
